@@ -120,16 +120,20 @@ pub fn run(ctx: &Ctx) -> i32 {
         } }
     }
     // --- salted add (draws from the OS generator: repeated invocations are a smoke check of decorrelation, the structure is checked exactly)
-    let host = Envelope::new("host").add_assertion("k", "v");
-    let horig = bind::observe(&host);
     let pa = Envelope::new_assertion("sp", "so");
+    // hosts: without the assertion, already holding its PLAIN copy, already holding a salted copy - a salted add must add a new element every time
+    let host0 = Envelope::new("host").add_assertion("k", "v");
+    let hosts: Vec<(&str, Envelope)> = vec![("fresh", host0.clone()), ("holds-plain-copy", host0.add_assertion_envelope(pa.clone()).unwrap()), ("holds-salted-copy", host0.add_assertion_envelope(pa.add_salt_instance(crate::explore::fixed_salt())).unwrap()), ("bare-leaf", Envelope::new("host"))];
+    for (hn, host) in &hosts {
+    let horig = bind::observe(host);
+    let horig = if let O::Node(..) = horig { horig } else { O::Node([0; 32], Box::new(horig), vec![]) };
     let variants: Vec<(&str, Envelope)> = vec![("plain", pa.clone()), ("elided", pa.elide()), ("compressed", pa.compress().unwrap()), ("encrypted", bind::obscure_whole(&pa, crate::refmodel::tree::Kind::Encrypted)), ("big-object", Envelope::new_assertion("sp", "x".repeat(1000)))];
     for (vn, a) in &variants {
         let mut digests: HashSet<[u8; 32]> = HashSet::new();
         let reps = 16;
         for rep in 0..reps {
             acc.inc("salted_adds");
-            let cid = || format!("salted-add/{vn}/rep{rep}");
+            let cid = || format!("salted-add/{hn}/{vn}/rep{rep}");
             let r = match catch(|| host.add_assertion_envelope_salted(a.clone(), true)) { Ok(Ok(r)) => r, Ok(Err(er)) => { acc.viol(format!("C17|add_assertion_salted|{vn}|refused"), format!("{er}"), cid(), json!({})); continue } Err(p) => { acc.viol(format!("C17|add_assertion_salted|panic|{}", p.loc), p.msg.clone(), cid(), json!({})); continue } };
             let ro = bind::observe(&r);
             let O::Node(_, rs, ra) = &ro else { acc.viol(format!("C17|add_assertion_salted|{vn}|not-a-node"), "", cid(), json!({})); continue };
@@ -142,16 +146,18 @@ pub fn run(ctx: &Ctx) -> i32 {
                 Ok(l) => { let s = a.to_cbor_data().len(); let (lo, hi) = size_range(s); if l < lo || l > hi { acc.viol(format!("C17|add_assertion_salted|{vn}|length-outside-range"), format!("salt length {l} outside {lo}..={hi} for assertion size {s}"), cid(), json!({})) } }
             }
             if *vn == "plain" || *vn == "big-object" {
-                match catch(|| r.assertions_with_predicate("sp")) { Ok(f) => if f.len() != 1 { acc.viol(format!("C17|add_assertion_salted|{vn}|not-found-by-predicate"), "the salted assertion is not found by its predicate", cid(), json!({"got": r.format_flat()})) }, Err(_) => acc.inc("panics_counted_under_C16") }
+                match catch(|| r.assertions_with_predicate("sp")) { Ok(f) => if f.len() != (if hn.starts_with("holds") { 2 } else { 1 }) { acc.viol(format!("C17|add_assertion_salted|{vn}|not-found-by-predicate"), "the salted assertion is not found by its predicate", cid(), json!({"got": r.format_flat()})) }, Err(_) => acc.inc("panics_counted_under_C16") }
             }
             digests.insert(bind::dg(&r));
         }
-        if digests.len() != reps { acc.viol(format!("C17|add_assertion_salted|{vn}|not-decorrelated"), format!("{reps} independent salted adds produced only {} distinct digests", digests.len()), format!("salted-add/{vn}"), json!({})) }
+        if digests.len() != reps { acc.viol(format!("C17|add_assertion_salted|{vn}|not-decorrelated"), format!("{reps} independent salted adds produced only {} distinct digests", digests.len()), format!("salted-add/{hn}/{vn}"), json!({})) }
         // unsalted add stays deterministic, and equals the plain add
         acc.inc("salted_adds");
         let u1 = host.add_assertion_envelope_salted(a.clone(), false).map(|x| x.to_cbor_data()).ok(); let u2 = host.add_assertion_envelope_salted(a.clone(), false).map(|x| x.to_cbor_data()).ok(); let u3 = host.add_assertion_envelope(a.clone()).map(|x| x.to_cbor_data()).ok();
         if u1 != u2 || u1 != u3 || u1.is_none() { acc.viol(format!("C17|add_assertion_salted|{vn}|unsalted-nondeterministic"), "unsalted add is not byte-identical across invocations / differs from add_assertion_envelope", format!("salted-add/{vn}/unsalted"), json!({})) }
     }
+    }
+    let host = host0.clone();
     for rep in 0..4 { acc.inc("salted_adds"); let r = host.add_assertion_salted("sp", "so", true); if r.assertions_with_predicate("sp").len() != 1 { acc.viol("C17|add_assertion_salted|pred-obj|not-found-by-predicate", "", format!("salted-add/predobj/rep{rep}"), json!({})) } let u = host.add_assertion_salted("sp", "so", false); if u.to_cbor_data() != host.add_assertion("sp", "so").to_cbor_data() { acc.viol("C17|add_assertion_salted|pred-obj|unsalted-differs", "", format!("salted-add/predobj/unsalted{rep}"), json!({})) } }
     { acc.inc("salted_adds"); let many = host.add_assertions_salted(&[pa.clone(), Envelope::new_assertion("sq", "sr")], true); if many.assertions().len() != 3 || many.assertions_with_predicate(known_values::SALT).len() != 0 { acc.viol("C17|add_assertions_salted|shape", "add_assertions_salted did not add two decorated assertions", "salted-add/many", json!({"got": many.format_flat()})) } }
     // production entry points (OS randomness): smoke, labelled as such
